@@ -21,7 +21,7 @@ def run_config(chk, config):
         return
     L0s = "L(reader.*)"
     L0 = Lin.sym(L0s)
-    eng = new_engine(chk, fx)
+    eng = new_engine(chk, fx, unroll=True)
     rets = eng.analyse(a.msg_try_read_validate["key"], name="Message::try_read_validate[%s]" % config)
     record_engine(chk, eng, "Message::try_read_validate [%s]: %d paths" % (config, len(rets)))
     n = {"ctrl": 0, "dataL": 0, "data": 0}
